@@ -55,6 +55,11 @@ CHECKS["C04"] = dict(engine="wire", technique="stateful property-based testing o
    note="Virtual time with 50 ms stamp granularity; keys for decrypting captured traffic come from the guarded probe; requests submitted at a peer before its restart are not judged.",
    ref="7.0 / C04")
 
+CHECKS["C01"] = dict(engine="wire", technique="property-based adversary generation: attack scripts composed from the real handshake primitives against a real handler, history invariant after every step",
+   text="Exploration: thousands of generated impersonation scripts per run (claimed id known/unknown/random; attacker-signed, garbage, empty, truncated signatures; own / genuine / third-party / no record with all seq relations and address fields; valid and invalid ephemeral keys; follow-up messages under attacker-derivable keys; replays; forged WHOAREYOUs) interleaved with genuine traffic; no effect may ever be attributed to a foreign id at an attacker address. Found the missing record-id/src-id binding on the pinned tree (fixed).",
+   note="Crypto primitives trusted. Outbound Established(Outgoing) before the responder proved itself is protocol design and not asserted (scope note in DESIGN.md).",
+   ref="7.0 / C01")
+
 NOT_YET = {}
 
 def main():
